@@ -141,6 +141,30 @@ def run_case(ctx, case):
     return None
 
 
+SCALED_FNS = ['sqrt', 'log', 'log2', 'log10', 'log1p', 'reciprocal']
+
+
+def scaled_point_fails(ctx, case):
+    """points far from one (powers of two, exact in floating point): whenever the n-th derivative itself is an ordinary double
+    (1e-302 < |value| < 1e302) the implementation returns it to rounding -- RELATIVE comparison with the exact closed form"""
+    try:
+        with np.errstate(all='ignore'):
+            y = impl(case)
+    except Exception as ex:
+        return 'exception-%s: nthderiv.%s(x, n=%d) raised %s' % (case['fn'], case['fn'], case['n'], type(ex).__name__)
+    try:
+        m = model(ctx, case)
+    except OverflowError:
+        return None                                    # (the exact value is beyond the double range)
+    if isinstance(m, str):
+        return 'model-error: ' + m
+    if not (1e-302 < abs(m) < 1e302):
+        return None
+    if not np.isfinite(y) or abs(y - m) > 1e-9 * abs(m):
+        return 'scaled-point-%s: nthderiv.%s(%r, n=%d) = %r, closed form gives %r (an ordinary double)' % (case['fn'], case['fn'], case['x'], case['n'], y, m)
+    return None
+
+
 def oracle_fails(case):
     """order n of the implementation vs the n-th derivative of f by a Cauchy integral"""
     f = T[case['fn']][3]
@@ -289,6 +313,8 @@ def replay_case(ctx, case):
         before = len(ctx.failures)
         mpmath_subcheck(ctx)
         return ctx.failures.pop()[1] if len(ctx.failures) > before else None
+    if case.get('scaled'):
+        return scaled_point_fails(ctx, case)
     if case.get('calling'):
         return calling_fails(ctx, case)
     return run_case(ctx, case)
@@ -337,6 +363,17 @@ def run(ctx):
             f = run_case(ctx, case)
             if f:
                 ctx.report(case, 'failure', f)
+    for name in [n_ for n_ in SCALED_FNS if n_ in T]:
+        for n_ in (1, 2, 3, 4, 5, 6):
+            # ... in particular points where the value is close to the ends of the double range (x^(1/2-n), x^-n, x^-(n+1) near 2^+-990)
+            edge = sorted(set(min(1000, int(990 / e_)) for e_ in (n_ - 0.5, n_, n_ + 1)))
+            for k_ in [-k for k in edge] + [-280, -150, -60, 60, 150, 280] + edge:
+                case = {'fn': name, 'n': n_, 'x': float(2.0 ** k_), 'scaled': True}
+                ctx.evaluations += 1
+                ctx.count('fn=' + name, 'scaled-point')
+                f = scaled_point_fails(ctx, case)
+                if f:
+                    ctx.report(case, 'failure', f)
     n = len(names) * (10 if ctx.tier == 'quick' else 150)
     for i in range(n):
         case = gen_case(ctx.rng, ctx.tier, names[i % len(names)])
